@@ -15,8 +15,9 @@ from vlib.core import MachineryError
 PKG = "c18"
 
 FAMILIES = {
-    "quick": ["wf", "sig", "evall", "ev1", "ev3", "ev2", "raw", "rawevent", "join"],
-    "thorough": ["wf", "sig", "evall", "env", "ev1a", "ev1b", "ev1c", "ev1xa", "ev1xb", "ev1xc", "ev3", "ev2", "raw", "rawevent", "join"],
+    "quick": ["xshape", "rawxshape", "wf", "sig", "evall", "ev1", "ev3", "ev2", "raw", "rawevent", "join"],
+    "thorough": ["xshape", "rawxshape", "ev2x", "wf", "sig", "evall", "env", "ev1a", "ev1b", "ev1c", "ev1xa", "ev1xb", "ev1xc", "ev3", "ev2", "raw",
+                 "rawevent", "join"],
 }
 PROBES = {"quick": 6000, "thorough": 150000}
 
@@ -91,6 +92,35 @@ def _report(ctx, cmd, records, results, label):
                                        "count": len(groups[k]), "versions": vers})
 
 
+DOMAINLESS = {"12", "org.matrix.hydra.11"}
+ALL_VERSIONS = {"1", "2", "3", "4", "5", "6", "7", "8", "9", "10", "11", "12", "org.matrix.msc3667", "org.matrix.msc3787",
+                "org.matrix.msc4014", "org.matrix.hydra.11"}
+# the stages a create event with a foreign room-ID shape has to be taken through, the auth check of the event itself first
+SHAPE_STAGES = ["AuthCheck:event", "Resolve:authchain:all", "Resolve:checkstate:state", "Resolve:new:both", "Handle:MakeJoin"]
+
+
+def _shape_obligations(cfg, records):
+    """The cross-shape family is only worth something if it really offers, for EVERY room version, a create event (and a
+    member and another event) whose room ID has the shape of the other family of versions, and takes the create event
+    through the auth check of the event itself and the stages built on it.  A generator that stops doing so is broken."""
+    have = {}
+    for r in records:
+        if r.get("p1") != "top/room_id":
+            continue
+        have.setdefault((r["ver"], r["type"]), {}).setdefault(r["c1"], set()).update(r["ops"][1:])
+    for v in sorted(ALL_VERSIONS):
+        want = "other" if v in DOMAINLESS else "opaque43"
+        for t in ("create", "member", "message"):
+            ops = have.get((v, t), {}).get(want)
+            if ops is None:
+                raise MachineryError("%s: no %s subject with room ID class %s in room version %s" % (cfg, t, want, v))
+            if t == "create":
+                missing = [o for o in SHAPE_STAGES if o not in ops]
+                if missing:
+                    raise MachineryError("%s: the create event with room ID class %s of room version %s is not taken through %s"
+                                         % (cfg, want, v, missing))
+
+
 def run(ctx):
     ctx.level = "exploration"
     ctx.exhaustive = False
@@ -110,6 +140,8 @@ def run(ctx):
         "within their contracts only (normal, (nil, nil), nothing, an error, everything rejected): a callback that breaks its "
         "contract (a verifier returning fewer results than requests, a provider returning other events than asked for) is not remote input",
         "the sibling constructors NewEventFromTrustedJSON / NewEventFromHeaderedJSON are given bytes the untrusted parser accepted",
+        "room-ID shapes: two families exist (with a domain; '!' + 43 URL-safe base64 characters); each shape is realised by an unrelated "
+        "member, by the ID derived from the room's own create event, and by its nearest neighbours (42 / 44 characters, standard base64 alphabet)",
     ]
     ctx.notes["rule"] = (
         "TLC enumerates Lifecycle_gen.tla families %s: subject type x field (path) x input class (single faults; "
@@ -117,7 +149,10 @@ def run(ctx):
         "<= 3 operations (constructors: untrusted / trusted / headered; roles of the event in resolution: state, auth, both, "
         "every event listed twice, state sets holding nothing the checks need; handlers, PerformInvite, RequestBackfill; "
         "application callbacks answering normally / (nil, nil) / nothing / an error / everything rejected) - the well-formed "
-        "subject and an edge-class family for ALL 16 versions already in the quick tier - with relevance pruning (an accessor is paired only with faults in field groups it reads; "
+        "subject, an edge-class family and the cross-version room-ID-shape family (the room ID of a create / member / other event - "
+        "and of the create event inside state, send_join, transaction and backfill bodies and of the room a PerformJoin answer describes - has the shape "
+        "of the OTHER family of room versions: domainless in versions with domain-carrying room IDs and conversely; every stage from the "
+        "auth check of the event itself to state resolution and the handlers) for ALL 16 versions already in the quick tier - with relevance pruning (an accessor is paired only with faults in field groups it reads; "
         "nothing follows a parse the design fixes to fail), plus raw inputs (identifiers, JSON documents, signed "
         "objects, key responses, Authorization headers, response bodies x every decode target) and make_join / "
         "send_join answers; then %d seeded byte-level mutants of the repository's test vectors and harness-built "
@@ -150,6 +185,8 @@ def run(ctx):
             cfg, r = fut.result()
             if not r.records:
                 raise MachineryError("no records from %s (dead generator)" % cfg)
+            if cfg.startswith("Lifecycle_gen_xshape_"):
+                _shape_obligations(cfg, r.records)
             results = [x for x in ctx.harness("c18", r.records, pkg=PKG, timeout=3000) if "i" in x]
             _report(ctx, "c18", r.records, results, cfg)
             ctx.log("%s: %d pipelines executed, %d failing" % (cfg, len(results), sum(1 for x in results if not x.get("ok"))))
